@@ -56,6 +56,11 @@ CLAIMED = {
          "Structure of the waits for every option value and peer state; elapsed time (never early / never late), scheduler latency and select's random choice among ready cases are not decided.",
          "Assumes time.After/AfterFunc and select semantics; nine RecvMsg implementations that re-armed the deadline on every queue resize were repaired (known_findings.json).",
          "DESIGN.md 4/C18"),
+ "C09": ("static analysis: extraction of affine induction-variable normal forms of the hop guards from SSA (E6c), path-condition predicates evaluated over a finite ordering domain (E6b), anchored shape rules",
+         "The six TTL receivers admit exactly the hop counts the property states (backtrace receivers: n <= ttl words; xpair1: hops <= ttl and < 255; xstar: hops < ttl), decided for every ttl by the extracted normal form rather than at sampled values, and cooked/raw twins agree; "
+         "OptionTTL stores exactly 1..255 and defaults to 8; each forwarding step adds exactly one hop; Device validates before spawning and forwards the received message unmodified. Payload equality through a device chain (C01) and non-swapping of concurrent clients (C05) are decided there, not here.",
+         "Anchored in the receiver/SetOption/Device functions (ANCHOR-MISSING fails closed); a hop guard written in a form outside the enumerated counter/value shapes is reported as undecided.",
+         "DESIGN.md 4/C09, 3.4 E6"),
 }
 
 NOT_YET = "check not built yet (work in progress; planned static rules in DESIGN.md section 4)"
